@@ -177,6 +177,9 @@ def rules_stateless(prog):
                                         % (arg.id, ast.unparse(n.func)[:40], n.lineno))
         out.append(ob('odml/validation.py::%s#stateless' % name,
                       'keeps no state between calls (no global/nonlocal, no mutated or escaping mutable default, '
-                      'no mutated module-level name)', 'proved' if not problems else 'refuted',
+                      'no mutated module-level name)',
+                      'proved' if not problems else
+                      ('refuted' if any('is mutated' in x or x.startswith(('global', 'nonlocal')) for x in problems)
+                       else 'undecided'),
                       '; '.join(problems) or 'no state-carrying construct'))
     return out
